@@ -5,19 +5,142 @@ RULE = RULES["C09"]
 ASSUMPTIONS = ASSUMPTIONS_FOR["C09"]
 
 
+RULE = RULE + (
+    " Additionally (task first-datagrams): one evaluation = a fresh server connection, a client right after connect(), or an endpoint in mid-handshake, fed 1-6 "
+    "arbitrary / genuine / mutated datagrams (generator of C05 G1/G2: garbage, short Initials, non-Initial first packets, unsupported versions, truncated headers) "
+    "and then left alone: after the first datagram (or connect) get_timer() must be finite while the connection is not terminated, and firing the timers must "
+    "lead to exactly one ConnectionTerminated no later than the idle timeout (or 3 x PTO if larger) after the last datagram, after which get_timer() is None "
+    "and no event follows."
+)
+
+
+def first_datagrams_case(ctx, case):
+    """whatever the first datagrams are, the connection names a finite deadline and idles out"""
+    from props import C05
+    from vlib import endpoints as E
+
+    with E.pinned(("c09-first", case["state"])):
+        sut, role, now, nxt, flights = C05.make_state(case["state"])
+        src = E.CLIENT_ADDR if role == "server" else E.SERVER_ADDR
+        idle = sut._configuration.idle_timeout
+        terminated = 0
+        fed = 0
+        last = now
+        cls = ["first:" + case["state"]]
+
+        def events():
+            nonlocal terminated
+            n = 0
+            while True:
+                e = sut.next_event()
+                if e is None:
+                    return n
+                n += 1
+                if type(e).__name__ == "ConnectionTerminated":
+                    terminated += 1
+                elif terminated:
+                    ctx.violation("event-after-termination", "%s reported %s after ConnectionTerminated (state %s)" % (role, type(e).__name__, case["state"]), case)
+
+        try:
+            for inp in case["inputs"]:
+                kind = inp[0]
+                if kind == "bytes":
+                    data = bytes(inp[1])
+                elif kind == "genuine":
+                    pool = nxt or [d for x, d in flights if x != ("s" if role == "server" else "c")]
+                    data = pool[inp[1] % len(pool)] if pool else b""
+                elif kind == "mutated":
+                    pool = (nxt + [d for x, d in flights if x != ("s" if role == "server" else "c")]) or [b"\x00"]
+                    data = C05.mutate(pool[inp[1] % len(pool)], inp[2])
+                else:
+                    continue
+                now += 0.001
+                sut.receive_datagram(data, src, now)
+                fed += 1
+                last = now
+                events()
+                sut.datagrams_to_send(now)
+                t = sut.get_timer()
+                if not terminated and sut._state.name != "TERMINATED" and t is None:
+                    ctx.violation("no-timer-on-live-connection", "%s in state %s: get_timer() is None after %d datagram(s) (connection state %s, not terminated)" % (role, case["state"], fed, sut._state.name), case)
+                    return
+            if case["state"] == "client-connecting" and not fed:
+                t = sut.get_timer()
+                if t is None:
+                    ctx.violation("no-timer-on-live-connection", "client after connect(): get_timer() is None", case)
+                    return
+            # silence: only timers from now on
+            budget = max(idle, 3 * sut._loss.get_probe_timeout()) + 1.0
+            for _ in range(400):
+                if terminated:
+                    break
+                t = sut.get_timer()
+                if t is None:
+                    if sut._state.name != "TERMINATED":
+                        ctx.violation("no-timer-on-live-connection", "%s in state %s: get_timer() became None during the silent period (connection state %s)" % (role, case["state"], sut._state.name), case)
+                    break
+                now = max(now, t)
+                if now > last + budget + 200:
+                    break
+                sut.handle_timer(now)
+                events()
+                sut.datagrams_to_send(now)
+            if fed or case["state"] != "fresh-server":
+                if terminated != 1:
+                    ctx.violation("silent-connection-never-terminates" if not terminated else "termination-reported-twice", "%s in state %s: %d ConnectionTerminated events within %.1f s of silence (idle timeout %.0f s)" % (role, case["state"], terminated, now - last, idle), case)
+                    return
+                if now > last + budget:
+                    ctx.violation("idle-termination-too-late", "%s in state %s terminated %.2f s after the last datagram (idle timeout %.0f s)" % (role, case["state"], now - last, idle), case)
+                    return
+                if sut.get_timer() is not None:
+                    ctx.violation("timer-after-termination", "%s: get_timer() = %r after ConnectionTerminated" % (role, sut.get_timer()), case)
+                    return
+                events()
+        except Exception as e:  # noqa - exceptions on hostile input are C05's subject
+            from vlib.harness import Violation
+
+            if isinstance(e, Violation):
+                raise
+            cls.append("first:api-raised")
+        ctx.case(("first", repr(case)), nontrivial=fed > 0, classes=cls + ["first:terminated" if terminated else "first:never-started"])
+
+
+def first_datagrams_task(ctx, examples, shard):
+    from hypothesis import strategies as st
+    from props import C05
+    from vlib.harness import run_hypothesis
+
+    states = st.sampled_from(["fresh-server", "fresh-server", "fresh-server", "client-connecting", "server-after-initial", "client-after-server-flight", "server-after-client-finished", "connected-server", "connected-client"])
+    strat = st.tuples(C05.raw_strategy(), states).map(lambda t: dict(t[0], kind="first", state=t[1], inputs=[i for i in t[0]["inputs"] if i[0] != "coalesce"] or [("bytes", b"\x00")]))
+
+    def body(ctx, case):
+        first_datagrams_case(ctx, case)
+        if ctx.want_sample():
+            ctx.sample({"state": case["state"], "inputs": [[i[0]] + [x if not isinstance(x, bytes) else x[:16] for x in i[1:]] for i in case["inputs"]][:4]})
+
+    run_hypothesis(ctx, body, strat, examples, shard=shard)
+
+
 def plan(tier, seed):
     from vlib import simchecks
 
-    return simchecks.plan_for("C09", tier, seed)
+    t = simchecks.plan_for("C09", tier, seed)
+    for s in range(2):
+        t.append(("first-datagrams-%d" % s, {"fn": "first", "examples": 300 if tier == "quick" else 15000, "shard": s}))
+    return t
 
 
 def run_task(ctx, name, fn, **kw):
     from vlib import simchecks
 
+    if fn == "first":
+        return first_datagrams_task(ctx, kw["examples"], kw["shard"])
     simchecks.run_task(ctx, "C09", name, fn, **kw)
 
 
 def replay(ctx, case):
     from vlib import simchecks
 
+    if case.get("kind") == "first":
+        return first_datagrams_case(ctx, dict(case, inputs=[tuple(tuple(x) if isinstance(x, list) else x for x in i) for i in case["inputs"]]))
     simchecks.replay(ctx, case, "C09")
